@@ -152,9 +152,13 @@ public:
     {
         int l = 0; for (int i = 0; i < QM_FS_SLOTS; ++i) if (i == m_slot) l = qm_fs[i].len;
         int n = l - m_pos; if (n > maxlen) n = int(maxlen); if (n < 0) n = 0;
-        for (int k = 0; k < QM_FS_FCAP; ++k) if (k < n) for (int i = 0; i < QM_FS_SLOTS; ++i) if (i == m_slot) buf[k] = char(qm_fs[i].bytes[(m_pos + k) < QM_FS_FCAP ? m_pos + k : 0]);
+        int w = 0;
+        for (int k = 0; k < QM_FS_FCAP; ++k) if (k < n) for (int i = 0; i < QM_FS_SLOTS; ++i) if (i == m_slot) {
+            char c = char(qm_fs[i].bytes[(m_pos + k) < QM_FS_FCAP ? m_pos + k : 0]);
+            if (!((m_mode & Text) && c == '\r')) buf[w++] = c;          // QIODevice::Text: carriage returns are removed when reading
+        }
         m_pos += n;
-        return n;
+        return w;
     }
     QByteArray readAll()
     {
@@ -162,8 +166,12 @@ public:
         int l = 0; for (int i = 0; i < QM_FS_SLOTS; ++i) if (i == m_slot) l = qm_fs[i].len;
         int n = l - m_pos; if (n < 0) n = 0;
         QM_LIMIT(n <= QM_STR_CAP);
-        for (int k = 0; k < QM_FS_FCAP && k < QM_STR_CAP; ++k) if (k < n) for (int i = 0; i < QM_FS_SLOTS; ++i) if (i == m_slot) r.m_d[k] = char(qm_fs[i].bytes[(m_pos + k) < QM_FS_FCAP ? m_pos + k : 0]);
-        r.m_len = n; m_pos += n;
+        int w = 0;
+        for (int k = 0; k < QM_FS_FCAP && k < QM_STR_CAP; ++k) if (k < n) for (int i = 0; i < QM_FS_SLOTS; ++i) if (i == m_slot) {
+            char c = char(qm_fs[i].bytes[(m_pos + k) < QM_FS_FCAP ? m_pos + k : 0]);
+            if (!((m_mode & Text) && c == '\r')) r.m_d[w++] = c;
+        }
+        r.m_len = w; m_pos += n;
         return r;
     }
     static bool rename(const QString &from, const QString &to)
